@@ -1,13 +1,25 @@
-REPO_FIX_COMMITS = ['4266043']
+REPO_FIX_COMMITS = ['4266043', 'e46ad8a', '89eccdd', '0e1b428', 'c3cd5a6', '47ccfae', 'a13fdfd', '21d60ea']
 
 CHECKS = [
     dict(id='C02', category='exploration', design_ref='5 (C02)',
          technique='bounded-exhaustive enumeration of all document pairs in generated families, executed on the real diff/patch, compared with an independent reference patcher',
          text='Every ordered pair of same-container-type JSON documents inside explicitly generated families (lists over small alphabets, type-probe atoms, heterogeneous arrays, strings incl. every Unicode line separator, objects, all nested trees up to 4/5 nodes) is diffed and patched by the real code; result, an independent documented-format patcher and the emptiness clause are compared on canonical JSON (value types distinct). Exhaustive within the bounds, no sampling.',
          note='Bounds: list length <=3/4, strings <=3 lines, trees <=4 (quick) / 5 (thorough) nodes. Trusted: mc/oracles/refpatch.py as reading of docs/source/diffing.rst; json.dumps(sort_keys) as canonical form.'),
+    dict(id='C01', category='exploration', design_ref='5 (C01)',
+         technique='bounded-exhaustive BFS over a notebook edit alphabet from nine seed notebooks; every (seed, state), (state, seed), depth-1 x depth-1 and seed x seed pair executed on the real diff_notebooks/patch_notebook and on the nbdiff/nbpatch file interface; independent reference patcher as oracle',
+         text='All notebook pairs related by edit scripts up to depth 1 (quick) / 2 (thorough) from nine schema-valid seeds (minors 0-5, ids, all cell/output kinds, attachments, JSON/base64/text payloads, mixed line endings), all depth-1 x depth-1 pairs and unrelated seed pairs are diffed and patched by the real code; the result, an independent patcher and the emptiness clause are compared on canonical JSON; the depth-1 slice is also pushed through nbdiff --out / nbpatch -o with real files.',
+         note='Bounds: edit alphabet of mc/universe_nb.py (~150 ops per 3-cell notebook), depth <= 2. Trusted: reference patcher, nbformat.read for the expected file content.'),
+    dict(id='C03', category='exploration', design_ref='5 (C03)',
+         technique='bounded-exhaustive product: all depth-1 x depth-1 edit pairs of seed notebooks x merge strategy configurations x external tool sets, each executed through the real merge_notebooks with a CLI-built namespace',
+         text='Every triple (seed, l, r) with l, r one edit away from a seed, under every distinct strategy table derivable from the 282 CLI combinations (quick: one representative per table nbdime itself derives; thorough: all 282 and three tool sets git/diff3/none, plus depth-1 bases) must return (notebook, decisions) within a time limit. Exhaustive over the stated product.',
+         note='Bounds: one edit per side (thorough: non-initial bases), 9 seeds. Assumes merge_notebooks reads args only via notebook_merge_strategies and log_level (checked by reading; thorough does not rely on it).'),
+    dict(id='C04', category='exploration', design_ref='5 (C04)',
+         technique='same exhaustive merge product as C03; every returned merged notebook (and the file written by nbmerge --out on a slice) is validated with jsonschema against the nbformat schema of its declared minor, discriminated by cell/output type',
+         text='For every merge of the C03 space that returns, the JSON round trip of the merged notebook must validate against nbformat.v4.<declared minor>.schema.json (cells and outputs validated against the definition their type selects, which yields leaf-level fingerprints). nbmerge --out files on a depth-1 slice are parsed and validated too.',
+         note='Trusted: schema files shipped with nbformat; jsonschema Draft4Validator. Duplicate cell ids are counted but not judged (not expressible in the schema).'),
 ]
 
 _PENDING_REASON = 'check under construction in this round (design in DESIGN.md section 5); not yet claimed'
 PENDING = [(p, _PENDING_REASON) for p in
-           ['C01', 'C03', 'C04', 'C05', 'C06', 'C07', 'C08', 'C09', 'C10', 'C11', 'C12', 'C13', 'C14',
+           ['C05', 'C06', 'C07', 'C08', 'C09', 'C10', 'C11', 'C12', 'C13', 'C14',
             'C15', 'C16', 'C17', 'C18', 'C19', 'C20']]
